@@ -809,4 +809,96 @@ theorem bitwise_laws (sem : Sem) (pad : Bool) (x y : Bytes) :
       simp only [List.map_cons, List.length_cons, List.replicate_succ, ih]
       simp
 
+-- ------------------------------------------------------------------ findFirstSetBit / countSetBits
+
+
+theorem lowestSetBit_none_all : ∀ n, n < 256 → (lowestSetBit (UInt8.ofNat n) = none ↔ n = 0) := by
+  decide +kernel
+
+theorem lowestSetBit_none_iff (b : UInt8) : lowestSetBit b = none ↔ b = 0 := by
+  have h := lowestSetBit_none_all b.toNat (UInt8.toNat_lt b)
+  have e : UInt8.ofNat b.toNat = b := by simp
+  rw [e] at h
+  rw [h]
+  constructor
+  · intro h0; apply UInt8.toNat_inj.mp; simpa using h0
+  · intro h0; subst h0; rfl
+
+theorem lowestSetBit_lt_all : ∀ n, n < 256 → ∀ k, lowestSetBit (UInt8.ofNat n) = some k → k < 8 := by
+  decide +kernel
+
+theorem findFirstSet_spec : ∀ (l : List UInt8) (i : Nat),
+    (findFirstSet l i = -1 ↔ ∀ b ∈ l, b = 0) ∧
+    (findFirstSet l i ≠ -1 → (8 * i : Int) ≤ findFirstSet l i ∧ findFirstSet l i < (8 * (i + l.length) : Nat))
+  | [], i => by simp [findFirstSet]
+  | b :: rest, i => by
+    have ih := findFirstSet_spec rest (i + 1)
+    simp only [findFirstSet]
+    cases hb : lowestSetBit b with
+    | none =>
+      have hz := (lowestSetBit_none_iff b).mp hb
+      simp only
+      constructor
+      · rw [ih.1]; simp [hz]
+      · intro hne
+        have := ih.2 hne
+        simp only [List.length_cons]
+        constructor <;> omega
+    | some k =>
+      have hk : k < 8 := by
+        have e : UInt8.ofNat b.toNat = b := by simp
+        have := lowestSetBit_lt_all b.toNat (UInt8.toNat_lt b) k (by rw [e]; exact hb)
+        exact this
+      have hnz : b ≠ 0 := by
+        intro h0
+        have := (lowestSetBit_none_iff b).mpr h0
+        rw [this] at hb; cases hb
+      simp only
+      constructor
+      · constructor
+        · intro h; omega
+        · intro h; exact absurd (h b (by simp)) hnz
+      · intro _
+        simp only [List.length_cons]
+        constructor <;> omega
+
+/-- `findFirstSetBit` answers -1 exactly for an all-zero (or empty) byte string; otherwise an index
+inside the string (`0 ≤ r < 8·length`) -/
+theorem findFirstSetBit_spec (sem : Sem) (bs : Bytes) :
+    ∃ r : Int, callBuiltin sem .findFirstSetBit [BS bs] = .ok (I r) ∧
+      (r = -1 ↔ ∀ b ∈ bs, b = 0) ∧ (r ≠ -1 → 0 ≤ r ∧ r < (8 * bs.length : Nat)) := by
+  refine ⟨findFirstSet bs.reverse 0, rfl, ?_, ?_⟩
+  · rw [(findFirstSet_spec bs.reverse 0).1]
+    simp
+  · intro h
+    have := (findFirstSet_spec bs.reverse 0).2 h
+    simp only [List.length_reverse] at this
+    constructor <;> omega
+
+
+
+theorem popCount_byte_compl_all : ∀ n, n < 256 →
+    (Bytes'.byteBits (UInt8.ofNat n ^^^ 255)).countP id + (Bytes'.byteBits (UInt8.ofNat n)).countP id = 8 := by
+  decide +kernel
+
+theorem popCount_compl : ∀ bs : Bytes, Bytes'.popCount (bs.map (· ^^^ 255)) + Bytes'.popCount bs = 8 * bs.length
+  | [] => rfl
+  | b :: rest => by
+    have ih := popCount_compl rest
+    have hb := popCount_byte_compl_all b.toNat (UInt8.toNat_lt b)
+    have e : UInt8.ofNat b.toNat = b := by simp
+    rw [e] at hb
+    simp only [Bytes'.popCount, Bytes'.toBits, List.map_cons, List.flatMap_cons, List.countP_append, List.length_cons] at *
+    omega
+
+/-- `countSetBits`: the bits set in `x` and in its complement add up to the bit length; the count of the
+empty string is 0 -/
+theorem countSetBits_complement (sem : Sem) (x : Bytes) :
+    ∃ c d : Int, callBuiltin sem .countSetBits [BS x] = .ok (I c) ∧
+      callBuiltin sem .countSetBits [BS (x.map (· ^^^ 255))] = .ok (I d) ∧
+      c + d = (8 * x.length : Nat) ∧ 0 ≤ c ∧ 0 ≤ d := by
+  refine ⟨Bytes'.popCount x, Bytes'.popCount (x.map (· ^^^ 255)), rfl, rfl, ?_, by omega, by omega⟩
+  have := popCount_compl x
+  omega
+
 end AikenVerif.C04
